@@ -36,7 +36,7 @@ ASSUMPTIONS = [
 ]
 FLOORS = {
     "quick": {"fn_cases": 100, "lane_output_checks": 300, "site_lane_matches": 400, "axis_nonzero": 25, "ragged_rank_sites": 15, "sample_shape_sites": 15, "gfi_method_checks": 150, "int_in_axes": 4},
-    "thorough": {"fn_cases": 1000, "lane_output_checks": 4000, "site_lane_matches": 4000, "axis_nonzero": 250, "ragged_rank_sites": 150, "sample_shape_sites": 150, "gfi_method_checks": 1500, "int_in_axes": 100},
+    "thorough": {"fn_cases": 1000, "lane_output_checks": 4000, "site_lane_matches": 4000, "axis_nonzero": 250, "ragged_rank_sites": 150, "sample_shape_sites": 150, "gfi_method_checks": 1500, "int_in_axes": 30},
 }
 TIMEOUT_S = {"quick": 1500, "thorough": 5400}
 
